@@ -149,6 +149,17 @@ pub fn check(thorough: bool, _seed: u64) -> Check {
     let mut sh = shapes(&[1.0, 2.0, 3.0, 4.0], if thorough { 5 } else { 4 });
     sh.extend(shapes(&[0.5, 2.0, f64::INFINITY], 3));
     sh.extend(shapes(&[-1.0, -0.0, 0.0, 5e-324], 3));
+    for n in [6usize, 9] {
+        let mut e: Vec<f64> = (1..=n).map(|i| i as f64).collect();
+        sh.push(e.clone());
+        e[n / 2] = e[n / 2 - 1];
+        e[n - 1] = e[n - 2];
+        sh.push(e);
+    }
+    // strictly increasing breakpoints closer together than machine epsilon, and tiny-domain functions
+    sh.push(vec![1.0, exact::succ(1.0), exact::succ(exact::succ(1.0))]);
+    sh.push(vec![1e-18, 2e-18, 3e-18]);
+    sh.push(vec![-3e-300, -2e-300, 5e-324, 1e-300]);
     let sh = Arc::new(sh);
     let n = cs.len();
     let cs2 = cs.clone();
@@ -171,7 +182,7 @@ pub fn check(thorough: bool, _seed: u64) -> Check {
         }),
         classes: vec![],
         bounds: json!({"cases": "every operator on Segment / Piecewise for every piece type it exists for (list under operator_cases)",
-            "shapes": format!("end lists of length 1..{} over {{1..4}}, 1..3 over {{0.5,2,+inf}} and over {{-1,-0.0,+0.0,5e-324}}", if thorough {5} else {4}),
+            "shapes": format!("end lists of length 1..{} over {{1..4}}, 1..3 over {{0.5,2,+inf}} and over {{-1,-0.0,+0.0,5e-324}}; 1..n for n=6,9 plain and with duplicate runs; breakpoints one ulp apart; tiny-domain lists (1e-18 scale, 1e-300 scale)", if thorough {5} else {4}),
             "scalars": "{0,-0.0,1,-1,2,0.1,1e-300,1e300}", "value level": "every x of A(ends) through the real Piecewise::evaluate, compared on bits with the operated piece's own evaluate"}),
     };
     let mut extra = serde_json::Map::new();
